@@ -12,6 +12,8 @@ E-PURE (state machines of `auth.rs`), states and messages `:`-separated:
   `srvstart <state> fresh=<c|-> h=…`       → next state          (`start_challenge`)
   `cli <state> <msg> fresh=<c|-> h=…`      → next state          (`ClientAuthenticationProcess::next`)
 
+  `authz adv=<pids> pid=<p> rem=<live remotable pids>` → `<0|1> adv=<pids afterwards>`   (`authorized_local_actor`)
+
 E-LTS (a real `NodeServer`, the harness is the peer):
   `node <name>`                                            → `ok`        (fresh NodeServer; forgets all sessions)
   `open <k> <server|client> thisname= thisconn= connid= transitive=` → `sent=[…]`
@@ -367,6 +369,18 @@ def step (st : St) (op impl : String) : St × StepOut :=
     | some s, some m =>
       (st, { model := showClient (s.next (Hof tbl) () (freshOf ws) m), oracle := fsmOracleCli s m impl, nontrivial := true })
     | _, _ => (st, { model := "bad-op" })
+  | "authz" :: _ =>
+    let adv := ((getField ws "adv").bind natList?).getD []
+    let pid := ((getField ws "pid").bind (·.toNat?)).getD 0
+    let rem := ((getField ws "rem").bind natList?).getD []
+    let env : Env := { check := .failed, elected := false, fresh := 0, localPids := [], groups := [],
+                       remotable := fun p => rem.contains p, sessions := none }
+    let s0 : SState D := { (Session.init ({ isServer := true, cookie := (), thisName := "", thisConn := "",
+                                             transitive := false, connId := 0 } : Cfg Unit)) with advertised := adv }
+    let (s1, ok) := authorized s0 env pid
+    -- oracle on the implementation's answer: allowed only if advertised and a live remotable actor
+    let orc := if impl.startsWith "1" && !(adv.contains pid && rem.contains pid) then ["delivery-to-unadvertised-pid"] else []
+    (st, { model := s!"{if ok then 1 else 0} adv={showNats (sortNats s1.advertised)}", oracle := orc, nontrivial := true })
   | ["node", _] => ({ sessions := [] }, { model := "ok" })
   | "open" :: k :: side :: _ =>
     match k.toNat? with
